@@ -4,6 +4,8 @@ import Psa.Model.Lifecycle
 import Psa.Spec.Lifecycle
 import Psa.Model.Claims
 import Psa.Model.Setters
+import Psa.Driver.ClaimsIO
+import Psa.Driver.ErrIO
 namespace Psa.Driver
 open Psa
 
@@ -46,12 +48,19 @@ def opLcName (args : List String) : String :=
     | none => "bad-op"
   | _ => "bad-op"
 
+def opObs (args : List String) : String :=
+  match parseClaims? args with
+  | some c => fmtObs c
+  | none => "bad-op"
+
 def runLine (l : String) : String :=
   match l.splitOn " " with
   | caseNo :: op :: args =>
     let r := match op with
       | "lc" => opLc args
       | "lcname" => opLcName args
+      | "obs" => opObs args
+      | "filter" => opFilter args
       | _ => "bad-op"
     caseNo ++ " " ++ r
   | _ => "bad-line"
